@@ -33,7 +33,7 @@ class Plan:
     __slots__ = (
         "a_at", "a_exc", "b_at", "b_every", "cache_pages", "record_sql",
         "calls", "callbacks", "fired", "sql_log", "connections", "commits_seen",
-        "journal_mode", "on_call",
+        "journal_mode", "on_call", "r_at", "rows",
     )
 
     def __init__(self, a_at=None, a_exc="OperationalError", b_at=None, b_every=None,
@@ -52,6 +52,8 @@ class Plan:
         self.connections = 0
         self.commits_seen = 0
         self.on_call = None           # optional hook(kind, sql, index)
+        self.r_at = None              # fail the read of result row number r_at (0-based, over the whole step)
+        self.rows = 0
 
 
 _PLAN = Plan()
@@ -97,7 +99,41 @@ def _gate(kind, sql):
         raise _EXC[plan.a_exc]()
 
 
+def _row_gate(n_rows=1):
+    """Count result rows handed to the step; fail the read of row r_at."""
+    plan = _PLAN
+    first = plan.rows
+    plan.rows += n_rows
+    if plan.r_at is not None and plan.fired is None and first <= plan.r_at < first + n_rows:
+        plan.fired = ("R", plan.r_at)
+        raise sqlite3.OperationalError("disk I/O error (injected: reading a result row failed)")
+
+
 class SimCursor(sqlite3.Cursor):
+    # result rows: every way the step can pull them is counted, and the read of row k can fail
+    def __next__(self):
+        row = super().__next__()
+        _row_gate(1)
+        return row
+
+    def fetchone(self):
+        row = super().fetchone()
+        if row is not None:
+            _row_gate(1)
+        return row
+
+    def fetchmany(self, *args, **kwargs):
+        rows = super().fetchmany(*args, **kwargs)
+        if rows:
+            _row_gate(len(rows))
+        return rows
+
+    def fetchall(self):
+        rows = super().fetchall()
+        if rows:
+            _row_gate(len(rows))
+        return rows
+
     def execute(self, sql, *args):
         _gate("execute", sql)
         return super().execute(sql, *args)
